@@ -94,6 +94,21 @@ CLAIMS = {
              "Two genuine defects repaired (fix: commits - entries indexed only while keys ascend; rows matched by counting header "
              "records, visible in tests/data/issue-66-collab.numbers). Trusted: " + TB,
         technique="contract-based deductive verification (quantified VCs over symbolic lists/maps with Skolem spec functions, z3/cvc5) + bounded layout-rewrite stand-in"),
+    "C03": dict(
+        category="proof", design="DESIGN.md section 7 C03",
+        text="Contract-based deductive proof on the real Table.add_row, add_column, delete_row and delete_column (document.py) over a "
+             "symbolic rectangular grid of any size with a per-field heap for cell.row/cell.col and an allocation ghost: each "
+             "operation raises IndexError exactly for an out-of-range start or a count no plain grid admits and then changes "
+             "nothing; otherwise grid' is exactly the plain-grid transformer (rows/columns inserted as new blank cells at the index, "
+             "or exactly the addressed slice removed), num_rows/num_cols move by the count, the grid stays rectangular and EVERY "
+             "cell - old, shifted or new - reports its own row and column (nested loop invariants for the renumbering, injectivity "
+             "of the grid). Each operation re-establishes the class invariant, hence every finite history does. Document.save "
+             "assigns no cell value/position or grid slot anywhere in its (over-approximated) call graph. write(), defaults, table/"
+             "sheet additions, isolation across tables/documents and save/reopen equality: bounded lock-step reference-grid stand-in.",
+        note="Assumes: T-INV+ as class invariant, Cell._empty_cell returns a freshly allocated cell carrying its coordinates (assumed "
+             "contract + allocation model), model.number_of_rows/columns only record sizes, default=None in the add_* proofs. One "
+             "genuine defect repaired (count validation). Trusted: " + TB,
+        technique="contract-based deductive verification (quantified VCs over grid + heap arrays, class invariant => all histories) + bounded reference-grid stand-in"),
 }
 NA_REASON = "check not built yet (build in progress; see DESIGN.md section 7 for the plan)"
 
